@@ -435,12 +435,90 @@ def r9_script_imports(ctx):
                    "imported unconditionally" if uncond else f"no import decision for {w} found in to_script", f.loc(f.node))
 
 
+R11_SELFTEST = """
+_INDEX_KEYS = ("dtype", "checks", "name", "unique", "coerce", "title", "description")
+
+def _deserialize_index_stats(stats):
+    return {k: v for k, v in stats.items() if k in _INDEX_KEYS}
+
+def _fine_index(stats):
+    return {k: v for k, v in stats.items() if k in ("dtype", "checks", "nullable", "unique", "coerce", "name", "title", "description")}
+"""
+
+
+class _Sink:
+    def __init__(self):
+        self.obs, self.stats = [], {}
+
+    def ob(self, rule, f, construct, ok, detail, loc=None):
+        self.obs.append((f.name, ok))
+
+
+def r11_key_filters(ctx, ix=None, mods=None):
+    """A hop that forwards a component's statistics through a key filter (`{k: v for k, v in d.items() if k in ALLOWED}`,
+    or the complement with a deny-list) must let every attribute of the property's sets through: an allow-list that lacks
+    one of them silently resets that attribute to the constructor default on re-read (the written text is unchanged)."""
+    if ix is None:
+        from ..index import Index
+        sink = _Sink()
+        r11_key_filters(sink, Index.from_sources({"pandera/_selftest_io.py": R11_SELFTEST}), ("pandera/_selftest_io.py",))
+        if sorted(sink.obs) != [("_deserialize_index_stats", False), ("_fine_index", True)]:
+            raise AnalysisError(f"C12.R11 self-test failed: {sink.obs}")
+    ix = ix or ctx.ix
+    n = 0
+    for mp in (mods or (IO, STATS)):
+        m = ix.module(mp)
+        consts = {}
+        for st in m.tree.body:
+            if isinstance(st, ast.Assign) and len(st.targets) == 1 and isinstance(st.targets[0], ast.Name) \
+                    and isinstance(st.value, (ast.Tuple, ast.List, ast.Set)) and st.value.elts \
+                    and all(isinstance(e, ast.Constant) and isinstance(e.value, str) for e in st.value.elts):
+                consts[st.targets[0].id] = {e.value for e in st.value.elts}
+            elif isinstance(st, ast.Assign) and len(st.targets) == 1 and isinstance(st.targets[0], ast.Name) and isinstance(st.value, ast.Call) \
+                    and callee_last(st.value) in ("frozenset", "set", "tuple") and st.value.args and isinstance(st.value.args[0], (ast.Tuple, ast.List, ast.Set)) \
+                    and all(isinstance(e, ast.Constant) and isinstance(e.value, str) for e in st.value.args[0].elts):
+                consts[st.targets[0].id] = {e.value for e in st.value.args[0].elts}
+        for f in m.all_functions:
+            for node in ast.walk(f.node):
+                if not isinstance(node, (ast.DictComp, ast.ListComp, ast.GeneratorExp, ast.SetComp)):
+                    continue
+                for g in node.generators:
+                    for cond in g.ifs:
+                        for cmp_ in ast.walk(cond):
+                            if not (isinstance(cmp_, ast.Compare) and len(cmp_.ops) == 1 and isinstance(cmp_.ops[0], (ast.In, ast.NotIn))):
+                                continue
+                            coll = cmp_.comparators[0]
+                            keys = None
+                            if isinstance(coll, ast.Name) and coll.id in consts:
+                                keys = consts[coll.id]
+                            elif isinstance(coll, (ast.Tuple, ast.List, ast.Set)) and coll.elts and all(
+                                    isinstance(e, ast.Constant) and isinstance(e.value, str) for e in coll.elts):
+                                keys = {e.value for e in coll.elts}
+                            if keys is None:
+                                continue
+                            universe = set(A_COL) | set(A_IDX)
+                            if len(keys & universe) < 3 and isinstance(cmp_.ops[0], ast.In):
+                                continue   # not an attribute allow-list
+                            if isinstance(cmp_.ops[0], ast.NotIn) and not (keys & universe):
+                                continue
+                            n += 1
+                            ctxt = (f.name + " " + (coll.id if isinstance(coll, ast.Name) else "")).lower()
+                            need = set(A_IDX) if "index" in ctxt else (set(A_COL) if "column" in ctxt else set(A_COL) & set(A_IDX))
+                            lost = sorted(need - keys) if isinstance(cmp_.ops[0], ast.In) else sorted(need & keys)
+                            ctx.ob("R11", f, f"key filter `{txt(cmp_)[:50]}` lets every listed attribute through", not lost,
+                                   "allow-list covers the attribute set" if not lost else
+                                   f"{lost} do(es) not pass the filter: the attribute is dropped on this hop and the re-read component takes the constructor "
+                                   "default (e.g. nullable=False), so from_yaml(to_yaml(S)) rejects data S accepts", f.loc(cmp_))
+    ctx.stats["attribute_key_filters"] = n
+
+
 def run(ctx):
     from ..defassign import check_modules
     check_modules(ctx, "R10", ('pandera/io/pandas_io.py', 'pandera/schema_statistics/pandas.py'), "escapes serialisation: the round trip is not even attempted")
     r7_aggregate_properties(ctx)
     r8_dtype_alias_lossless(ctx)
     r9_script_imports(ctx)
+    r11_key_filters(ctx)
     ix = ctx.ix
     io = ix.module(IO)
     st = ix.module(STATS)
